@@ -58,6 +58,15 @@ ASSUMPTIONS = [
     "warnings are compared by (category, text) between the two library computations, never against text of my own",
     "generators are advanced by one thread; no pre-emption inside a next() call",
 ]
+
+
+def vacuity(agg):
+    n = agg.probes.get("document_unloadable", 0)
+    if agg.evaluations and n * 5 > agg.evaluations:
+        return f"{n} of {agg.evaluations} runs drew a document that does not load at all; nothing could be judged there"
+    return None
+
+
 EXPECTED_PROBES = ("gen_switch", "gen_close", "load_between_next", "direct_parse_between", "unknown_apid_packet",
                    "ambiguous_packet", "dead_sub_packet", "long_packet", "reporting_on", "reporting_off", "skip_bad",
                    "headers_only", "shared_definition_2plus", "socket_source", "file_source", "two_definitions")
@@ -173,7 +182,14 @@ def run(ch, render=False):
                 p = xf.encode_packet(doc, ds["chain"], ds["apid"], ds["fixed"], sub, count=cnt)
             elif cat == "long":
                 p = xf.encode_packet(doc, leaf["chain"], leaf["apid"], leaf["fixed"], sub, count=cnt)
+                # "over-long" is only known by construction if the packet without the extra bytes is consumed exactly
+                # (decided by the library itself on the untouched oracle definition; no field of the family depends on
+                # the length field, so extra trailing bytes are then certainly left over)
+                res0, err0 = alone(oracle_a[di], p, 0, {"yield_unrecognized_packet_errors": True})
+                exact = (err0 is None and len(res0[0]) == 1 and res0[0][0][0] == "PKT" and res0[0][0][3] == len(p) * 8)
                 p = relen(p, p[6:] + factory.payload(sub + 7, 1 + sub % 3))
+                if not exact:
+                    cat = "leaf"
             else:  # short
                 p = xf.encode_packet(doc, leaf["chain"], leaf["apid"], leaf["fixed"], sub, count=cnt)
                 if len(p) > 7:
@@ -301,6 +317,9 @@ def run(ch, render=False):
                             defs[g["di"]].parse_ccsds_packet(CCSDSPacket(raw_data=p))
                         except UnrecognizedPacketTypeError:
                             pass
+                        except Exception as e:      # noqa: BLE001 -- this packet parsed alone without raising
+                            err = ("exception", f"direct parse_ccsds_packet of a packet that parses alone raised "
+                                                f"{type(e).__name__}: {e}", gi)
                     continue
                 if last_g is not None and last_g != gi:
                     switches += 1
